@@ -324,7 +324,7 @@ def c08(tier, seed):
     results, run_items, vs, metas = _run_campaign(rep, jobs, {"C08"})
     # user-supplied buffer sizes: every admissible size must work, a size below the minimum must be refused by rex
     bjobs = []
-    for i, cfg in enumerate(_rec_cfgs(seed + 900, 2 if quick else 10)):
+    for i, cfg in enumerate(_rec_cfgs(seed + 900, 3 if quick else 11, fam=("fast_chain",))):   # fast_chain: one producer, two readers with different requirements
         bjobs.append(dict(kind="pyfunc", module="harness.compiled_jobs", func="buffer_job", id=f"c08b{i}", cfg=cfg, seed=seed + i, source="record",
                           histories=[_hist_step(6), _hist_run(6)], timeout=_to(2400)))
     bres = common.run_jobs(bjobs, timeout=2700)
@@ -550,7 +550,8 @@ def c13(tier, seed):
         return rs
 
     def modes_of(i):
-        return [ALL_MODES[(i * 2) % 6] + [{}]] if quick else [ALL_MODES[(i + j) % 6] + [{}] for j in range(3)]
+        o = {"consume_nonsup": i} if i % 2 == 1 else {}   # odd graphs: one node hands back consumed inputs (record = inputs the step was called with)
+        return [ALL_MODES[(i * 2) % 6] + [o]] if quick else [ALL_MODES[(i + j) % 6] + [o if j != 1 else {}] for j in range(3)]
 
     cjobs = _run_jobs_for(seed + 400, 4 if quick else 8, "c13c", runs_of, modes_of)
     for j in cjobs:
